@@ -8,7 +8,7 @@ CONSTANTS
   MaxForeign = 0
   MaxLen = 6
   MaxInner = 2
-  MaxDepth = 1
+  MaxDepth = 0
   MaxNodes = 6
   UnsChoices = {TRUE}
   Uniform = TRUE
